@@ -70,15 +70,15 @@ def subscribe(
     operation, root_type = get_operation_with_type(
         schema, document, operation_name
     )
-    coerced_variables = coerce_variable_values(
-        schema, operation, variables or {}
-    )
-
     if operation.operation != "subscription":
         raise RuntimeError(
             "`subscribe` does not support %s operation, "
             "use the `execute` helper." % operation.operation
         )
+
+    coerced_variables = coerce_variable_values(
+        schema, operation, variables or {}
+    )
 
     executor = executor_cls(
         schema,
